@@ -755,3 +755,75 @@ def check_frontends(model, route, vectorize, seed=0, style=0):
     for f in fails:
         f["clause"] = f"[{route}] " + f["clause"]
     return fails
+
+
+def check_grid_search(model, grid, param_map, outputs, vectorize=True, permute=False, as_frame=None, inputs=None, T=0.5, dt=0.05):
+    """C17-B: every row of the parameter table <-> the time series of an individual run with those values."""
+    import pandas as pd
+    from pyrates.utility import grid_search
+    tpl = mdl.build_templates(model)
+    g = grid
+    if as_frame is not None:
+        g = pd.DataFrame(grid)
+        g.index = as_frame                      # a non-default index (sorted / shuffled / filtered table)
+    try:
+        res, table = grid_search(circuit_template=tpl, param_grid=g if as_frame is not None else dict(grid), param_map=param_map,
+                                 step_size=dt, simulation_time=T, outputs=dict(outputs), inputs=dict(inputs) if inputs else None,
+                                 permute_grid=permute, vectorize=vectorize, solver="euler", verbose=False, clear=True,
+                                 float_precision="float64")
+    except Exception as exn:
+        return [dict(clause="grid_search returns a result for a well-formed request", observed=f"{type(exn).__name__}: {exn}")]
+    fails = []
+    n_rows = len(table.index)
+    expected_rows = int(np.prod([len(v) for v in grid.values()])) if permute else len(next(iter(grid.values())))
+    if n_rows != expected_rows:
+        return [dict(clause="grid_search: one result per row of the (linearised / permuted) grid", observed=n_rows, expected=expected_rows)]
+    seen_values = set()
+    for cname in table.index:
+        row = {k: float(table.loc[cname, k]) for k in table.columns}
+        seen_values.add(tuple(sorted(row.items())))
+        m2 = model
+        for key, val in row.items():
+            pm = param_map[key]
+            if "nodes" in pm:
+                for nname in pm["nodes"]:
+                    for v in pm["vars"]:
+                        m2, _ = mdl_override(m2, f"{nname}/{v}", val)
+            else:
+                import json
+                m2 = json.loads(json.dumps(m2))
+                for edge in pm["edges"]:
+                    hit = [e for e in m2["edges"] if e["src"] == edge[0] and e["tgt"] == edge[1]]
+                    hit[edge[2] if len(edge) > 2 else 0]["w"] = val
+        per_var = None
+        if inputs:
+            per_var = {}
+            for path, arr in inputs.items():
+                for tp in expand_path(m2, path):
+                    per_var[tp] = np.asarray(arr, dtype=float)
+        _, ref = mdl.spec_fixed_step(m2, T, dt, dt, "euler", inputs=per_var)
+        for key, path in outputs.items():
+            for target in expand_path(model, path):
+                *ns, o, v = target.split("/")
+                cols = [c for c in res.columns if isinstance(c, tuple) and c[0] == key and cname in c and f"{o}/{v}" in c
+                        and all(n_ in c for n_ in ns)]
+                if len(cols) != 1:
+                    fails.append(dict(clause="grid_search: each result is labelled with the key the parameter table maps to its values",
+                                      observed=[str(c) for c in res.columns][:6], expected=f"one column for ({key}, {cname}, {target})"))
+                    return fails
+                got = np.asarray(res[cols[0]], dtype=float).reshape(len(res.index), -1)[:, 0]
+                want = ref[target]
+                if got.shape != want.shape or not np.allclose(got, want, rtol=1e-6, atol=1e-9):
+                    fails.append(dict(clause="grid_search: the series under a key equals the individual run with that row's values",
+                                      var=target, circuit=str(cname), row_values=row,
+                                      observed=float(got[-1]) if len(got) else None, expected=float(want[-1]) if len(want) else None))
+                    return fails
+    # the table holds exactly the grid's rows
+    if permute:
+        import itertools
+        want_rows = {tuple(sorted(zip(grid.keys(), map(float, combo)))) for combo in itertools.product(*grid.values())}
+    else:
+        want_rows = {tuple(sorted((k, float(grid[k][i])) for k in grid)) for i in range(expected_rows)}
+    if seen_values != want_rows:
+        fails.append(dict(clause="grid_search: the parameter table holds exactly the rows of the grid", observed=sorted(seen_values)[:4], expected=sorted(want_rows)[:4]))
+    return fails
